@@ -152,6 +152,23 @@ def mutate_everything(schema, C, ty, m):
             break
 
 
+def reassign_toplevel(schema, C, ty, c):
+    """top-level attribute assignments on a *shallow* copy (rebinding only, no in-place mutation of shared values):
+    select another member in every oneof group, rebind scalars -- the original must not notice either"""
+    groups = {}
+    for f in members(schema, ty):
+        groups.setdefault(f["group"], []).append(f)
+    for g, ms in groups.items():
+        cur, _ = betterproto.which_one_of(c, g)
+        for f in ms:
+            if f["name"] != cur and f["kind"] not in ("message", "timestamp", "duration", "wrap"):
+                setattr(c, f["name"], gen_scalar_py(f["kind"]) if f["kind"] != "enum" else 1)
+                break
+    for f in schema["types"][ty]:
+        if f["card"] in ("implicit", "optional") and f["kind"] in gen.RANGE and f["kind"] != "enum":
+            setattr(c, f["name"], 43)
+
+
 def gen_scalar_py(kind):
     return {"bool": True, "float": 1.5, "double": 1.5, "string": "zz", "bytes": b"zz"}.get(kind, 7)
 
@@ -234,6 +251,7 @@ def run_history(schema, C, ty, ops, R=None):
                 e["op"] = "mutcopy"
                 for c in (copy.deepcopy(m), pickle.loads(pickle.dumps(m))):
                     mutate_everything(schema, C, ty, c)
+                reassign_toplevel(schema, C, ty, copy.copy(m))
             else:
                 raise AssertionError(k)
         except AttributeError:
